@@ -79,9 +79,13 @@ def parseBlock (s : String) : Dct :=
 def runT (a : List String) : String :=
   match a with
   | bpl :: spl :: n :: pred :: blocks =>
-    match bpl.toNat?, spl.toNat?, n.toNat?, pred.toNat? with
-    | some bpl, some spl, some n, some pred =>
-      match Idct.idctChannel (blocks.map parseBlock).toArray (Array.replicate n pred) bpl spl with
+    -- the prediction: one value for the whole plane, or `p<hex plane>`
+    let plane : Option (Array Nat) :=
+      if pred.startsWith "p" then unhex (pred.drop 1).toString else (pred.toNat?).bind fun v => n.toNat?.map fun k => Array.replicate k v
+    match bpl.toNat?, spl.toNat?, n.toNat?, plane with
+    | some bpl, some spl, some n, some plane =>
+      if plane.size != n then "bad-op" else
+      match Idct.idctChannel (blocks.map parseBlock).toArray plane bpl spl with
       | .ok o => s!"T {hex o}"
       | _ => "T PANIC"
     | _, _, _, _ => "bad-op"
